@@ -10,7 +10,8 @@ RDimsB == {<<4, 3>>, <<5, 2>>, <<130, 2>>}
 RDimsNone == {}
 Ev(o, a, x) == [op |-> o, args |-> a, out |-> x]
 SdsItemsFor(r) == [i \in 1..Len(sds') |-> [shape |-> sds'[i].shape, type |-> sds'[i].type, k |-> sds'[i].k, scales |-> ScalesSeen(r, sds'[i])]]
-NcItems  == [i \in 1..Len(sds') |-> [shape |-> sds'[i].shape, size |-> SizeOf[sds'[i].type], float |-> IsFloat(sds'[i].type), k |-> sds'[i].k]]
+NcVis == SelectSeq(sds', LAMBDA e : ~e.unl)
+NcItems  == [i \in 1..Len(NcVis) |-> [shape |-> NcVis[i].shape, size |-> SizeOf[NcVis[i].type], float |-> IsFloat(NcVis[i].type), k |-> NcVis[i].k]]
 RasItems(r) == LET vis == SelectSeq(ras', LAMBDA e : VisibleTo(r, e)) IN
                [i \in 1..Len(vis) |-> [dims |-> vis[i].dims, ncomp |-> vis[i].ncomp, k |-> vis[i].k, pal |-> vis[i].pal]]
 SdW == SelectSeq(sds', LAMBDA e : e.writer \in {"SD", "NC"})
